@@ -424,6 +424,12 @@ impl SaleWorld {
         let q = |app: &App, m: Value| -> Option<Value> { app.wrap().query_wasm_smart::<Value>(wl.clone(), &m).ok() };
         let cfg = q(&self.app, json!({"config": {}}))?;
         let active = cfg.get("is_active")?.as_bool()?;
+        // the minter parses the answer into its own typed ConfigResponse (deny_unknown_fields): the flex
+        // family has no per_address_limit, the others require it; the other family's answer does not parse,
+        // i.e. for this minter the Config query fails
+        if self.v.flex == cfg.get("per_address_limit").is_some() {
+            return None;
+        }
         let price: u128 = cfg["mint_price"]["amount"].as_str()?.parse().ok()?;
         let denom = self.denoms.id(cfg["mint_price"]["denom"].as_str()?);
         let limit = cfg.get("per_address_limit").and_then(|x| x.as_u64()).unwrap_or(0);
